@@ -90,3 +90,79 @@ _c = fcontract('NullTerminated', '_parse', [
     Case('fails', 'raise', lambda pre: t.not_(_guard_ok(pre)), ensures=_parse_bad, modifies=['stream']),
 ], loops={'while True': LoopSpec(_scan_inv, variant=_bytes_left, variant_tags=('C06',), tags=('C08', 'C03'), havoc_kinds={}, modifies=())}, tags=('C08', 'C03', 'C06'))
 _c.variants = [VariantDict(term_len=u) for u in UNITS]
+
+
+# ================================================================================================ NullStripped._parse (C08)
+# The inner construct sees the rest of the stream with the trailing padding stripped: for a 1-byte pad every trailing pad byte
+# (bytes.rstrip, assumed contract of the builtin: rstrip_len); for a pad of u bytes first a trailing partial pad, then whole
+# trailing pads.  The region still reports ABSOLUTE offsets of the outer stream.
+prelude.define('rstrip_len', """(define-fun-rec rstrip_len ((a (Array Int Int)) (off Int) (n Int) (p Int)) Int
+  (ite (<= n 0) 0 (ite (= (select a (+ off (- n 1))) p) (rstrip_len a off (- n 1) p) n)))""",
+               py=lambda a, off, n, p: next((k for k in range(max(n, 0), 0, -1) if a[off + k - 1] != p), 0))
+
+
+def _ns_end_py(u):
+    def f(a, off, e, pd, po):
+        while e - u >= 0 and all(a[off + e - u + i] == pd[po + i] for i in range(u)):
+            e -= u
+        return e
+    return f
+
+
+for _u in (2, 3):
+    _eq = ' '.join('(= (select a (+ off (- e %d) %d)) (select pd (+ po %d)))' % (_u, i, i) for i in range(_u))
+    prelude.define('ns_end%d' % _u, """(define-fun-rec ns_end%d ((a (Array Int Int)) (off Int) (e Int) (pd (Array Int Int)) (po Int)) Int
+  (ite (and (>= (- e %d) 0) %s) (ns_end%d a off (- e %d) pd po) e))""" % (_u, _u, _eq, _u, _u),
+                   py=_ns_end_py(_u), doc='length left after removing whole trailing pads of %d bytes from the first e bytes at off' % _u)
+
+
+def _ns_unit(pre):
+    return pre.self.fields['pad'].len.args[0]
+
+
+def _ns_len(pre):
+    o = S_(pre)
+    pd = pre.self.fields['pad']
+    u = _ns_unit(pre)
+    n = _avail(o)
+    if u == 1:
+        return t.app('rstrip_len', t.INT, o.buf, o.pos, n, t.select(pd.arr, pd.off))
+    tail = t.pymod(n, I(u))
+    # a trailing partial unit equal to the beginning of the pad is dropped first
+    parts = []
+    for k in range(1, u):
+        parts.append(t.and_(t.eq(tail, I(k)), *[t.eq(t.select(o.buf, t.add(o.pos, t.add(t.sub(n, I(k)), I(i)))), t.select(pd.arr, t.add(pd.off, I(i)))) for i in range(k)]))
+    e0 = t.ite(t.or_(*parts), t.sub(n, tail), n)
+    return t.app('ns_end%d' % u, t.INT, o.buf, o.pos, e0, pd.arr, pd.off)
+
+
+def _ns_inner(pre):
+    o = S_(pre)
+    return Sub(pre, 'subcon', o=Region(o.buf, o.pos, _ns_len(pre), t.add(o.pos, _abs_base(o))))
+
+
+def _ns_ok(pre, post):
+    o, o2 = S_(pre), post.obj('stream')
+    return [('inner-construct-sees-the-rest-of-the-stream-without-the-trailing-padding-at-absolute-offsets', result_is(post, _ns_inner(pre).val), ('C08', 'C03')),
+            ('outer-stream-read-to-its-end', t.eq(o2.pos, t.add(o.pos, _avail(o))), ('C08',)),
+            ('buffer-unchanged', buffer_same(pre, post), ('C17', 'C08'))]
+
+
+def _ns_inv(L):
+    pre = L.extra['pre']
+    o0 = pre.obj('stream')
+    if o0.model == 'adv':
+        return []
+    pd = pre.self.fields['pad']
+    u = _ns_unit(pre)
+    e = L.eng.as_int(L['end'], L.st)[0]
+    return [('end-stays-in-range', t.and_(t.le(t.ZERO, e), t.le(e, _avail(o0)))),
+            ('the-stripped-length-is-determined-by-what-is-left', t.eq(_ns_len(pre), t.app('ns_end%d' % u, t.INT, o0.buf, o0.pos, e, pd.arr, pd.off)))]
+
+
+_ns = fcontract('NullStripped', '_parse', [
+    Case('ok', 'return', lambda pre: _ns_inner(pre).ok, ensures=_ns_ok, rkind=rk_dyn, modifies=['stream']),
+    Case('inner-fails', 'raise', lambda pre: t.not_(_ns_inner(pre).ok), ensures=generic_raise, modifies=['stream']),
+], loops={'while end - unit >= 0 and data[end - unit:end] == pad': LoopSpec(_ns_inv, variant=lambda L: L.eng.as_int(L['end'], L.st)[0], variant_tags=('C06',), tags=('C08', 'C03'), havoc_kinds={}, modifies=())},
+    tags=('C08', 'C03', 'C06'))
+_ns.variants = [VariantDict(pad_len=u) for u in (1, 2, 3)]
